@@ -293,7 +293,8 @@ def genKCfg : KCfg :=
   let field (l : CacheLit) (k : String) : String := ((l.fields.find? (·.1 == k)).map (·.2)).getD ""
   -- struct literals `PreparedStmtDB{…}` outside the constructor: their ConnPool must be the configured pool
   let lits := cacheLits.filter fun l => l.typ == "PreparedStmtDB" && l.fn != "NewPreparedStmtDB"
-  let txCalls := prepareCalls.filter fun c => c.fn.startsWith "PreparedStmtTX."
+  -- calls made through a PreparedStmtTX (`tx.PreparedStmtDB.prepare(…)`), i.e. not on the method's own receiver
+  let txCalls := prepareCalls.filter fun c => c.on != c.recv
   { openArg := if !inOpen.isEmpty && inOpen.all isConfigPool then .config else .statement,
     sessArg := if !inSess.isEmpty && inSess.all isConfigPool then .config else .statement,
     sessPool := if arms == ["Tx", "default"] &&
